@@ -481,6 +481,29 @@ func ruleMod10(c *Ctx) {
 			arg := call.Common().Args[0]
 			lv := map[ssa.Value]bool{}
 			treeLeaves(arg, lv, 0)
+			// the final reduction moved into a helper that receives the sum: the helper's parameter stands
+			// for the expression passed at its only call site
+			var viaParam *ssa.Parameter
+			var viaArg ssa.Value
+			if len(lv) == 1 {
+				for l := range lv {
+					if p, isP := l.(*ssa.Parameter); isP && p.Parent() == fn {
+						if sites := c.P.callSitesOf(fn); len(sites) == 1 {
+							for i, q := range fn.Params {
+								if q == p && i < len(sites[0].Common().Args) {
+									viaParam, viaArg = p, sites[0].Common().Args[i]
+								}
+							}
+						}
+					}
+				}
+			}
+			accFn := fn
+			if viaParam != nil {
+				accFn = viaArg.(ssa.Instruction).Parent()
+				lv = map[ssa.Value]bool{}
+				treeLeaves(viaArg, lv, 0)
+			}
 			var accs []*ssa.Phi
 			allPhi := len(lv) > 0
 			for l := range lv {
@@ -491,7 +514,7 @@ func ruleMod10(c *Ctx) {
 				}
 				accs = append(accs, p)
 			}
-			name := c.P.FuncName(fn)
+			name := c.P.FuncName(accFn)
 			if !allPhi || len(accs) == 0 || len(accs) > 2 {
 				continue // not a sum -> check digit conversion
 			}
@@ -500,7 +523,7 @@ func ruleMod10(c *Ctx) {
 			c.Fn(name)
 			// (b) accumulator structure: per accumulator the multiple of the digit added when the toggle
 			// is set / clear
-			coef := checkAccumulator(c, R, fn, accs)
+			coef := checkAccumulator(c, R, accFn, accs)
 			if coef == nil {
 				continue
 			}
@@ -535,6 +558,15 @@ func ruleMod10(c *Ctx) {
 							if len(accs) == 2 {
 								env[accs[1]] = b
 								s += cs[1] * b
+							}
+							if viaParam != nil {
+								pv, okP := evalTree(viaArg, env, 0)
+								if !okP {
+									good = false
+									bad = "the value handed to the reducing helper is not an arithmetic expression of the sums"
+									break
+								}
+								env = map[ssa.Value]int64{viaParam: pv}
 							}
 							got, ok := evalTree(arg, env, 0)
 							want := (10 - s%10) % 10
